@@ -56,6 +56,7 @@ TApi ==
        \/ Ev.name = "MultiBegin" /\ MultiBegin(Ev.K)
        \/ Ev.name = "MultiEnd" /\ MultiEnd
        \/ Ev.name = "MultiDone" /\ MultiDone
+       \/ Ev.name = "MultiAbort" /\ MultiAbort(Ev.K)
 
 \* the outcome of the last write as observed by the caller
 TAck == /\ Ev.k = "ack" /\ wlog # <<>>
